@@ -170,6 +170,13 @@ class Evaluator:
         if isinstance(node, ast.BinOp):
             a, b = self.ev(node.left), self.ev(node.right)
             if isinstance(a, Abs) or isinstance(b, Abs):
+                dunder = {ast.Add: "__add__", ast.Sub: "__sub__"}.get(
+                    type(node.op))
+                if dunder and isinstance(a, Abs) and a.cls is not None and \
+                        hasattr(a.cls, "find_method"):
+                    m = a.cls.find_method(dunder)
+                    if m is not None:
+                        return self.inline(m, [a, b], {})
                 raise Unsupported("table evaluator: arithmetic on abstract "
                                   "object in %s" % unparse(node))
             try:
@@ -435,6 +442,23 @@ class Evaluator:
             if f.id == "super" and not node.args:
                 me = self.env.get(self.self_name) if self.self_name else None
                 return ("super", self.func.owner_cls if self.func else None, me)
+            if f.id == "getattr" and len(node.args) in (2, 3) and \
+                    self.hooks is not None:
+                # hooks may model getattr themselves (e.g. name patterns)
+                r = self.hooks.function(self, node,
+                                        [self.ev(a) for a in node.args], {})
+                if r is not NotImplemented:
+                    return r
+            if f.id == "getattr" and len(node.args) in (2, 3):
+                o = self.ev(node.args[0])
+                a = self.ev(node.args[1])
+                if isinstance(a, str):
+                    if len(node.args) == 2:
+                        return self.getattr(o, a, node)
+                    try:
+                        return self.getattr(o, a, node)
+                    except Unsupported:
+                        return self.ev(node.args[2])
             if f.id == "hasattr" and len(node.args) == 2:
                 o = self.ev(node.args[0])
                 a = self.ev(node.args[1])
